@@ -278,6 +278,73 @@ def downgradingAttempt (levels : List Nat) (attempts : Nat) : Bool × Option Nat
   else if attempts > 0 then (true, levels[attempts - 1]?)
   else (true, none)
 
+/-! ### `queryMetrics` (session.go): what `Attempts()`, `Latency()` and the observers' `Metrics` are computed from -/
+
+/-- `hostMetrics` of one host (`queryMetrics.m[host]`) -/
+structure HostM where
+  host : Nat
+  attempts : Nat
+  total : Nat         -- TotalLatency, nanoseconds
+deriving DecidableEq, Repr
+
+structure QM where
+  totalAttempts : Nat := 0
+  m : List HostM := []        -- the map, as an association list (one entry per host, created on first use)
+deriving DecidableEq, Repr
+
+/-- `hostMetricsLocked(host)` (get or create) followed by `Attempts += 1; TotalLatency += lat` -/
+def bumpHost : List HostM → Nat → Nat → List HostM
+  | [], h, lat => [⟨h, 1, lat⟩]
+  | x :: xs, h, lat => if x.host = h then ⟨h, x.attempts + 1, x.total + lat⟩ :: xs else x :: bumpHost xs h lat
+
+def hostAtt : List HostM → Nat → Nat
+  | [], _ => 0
+  | x :: xs, h => if x.host = h then x.attempts else hostAtt xs h
+
+def hostTot : List HostM → Nat → Nat
+  | [], _ => 0
+  | x :: xs, h => if x.host = h then x.total else hostTot xs h
+
+/-- what one attempt hands to the observer: its number (`Attempt`), and the host's `Metrics` after it -/
+structure ObsM where
+  idx : Nat
+  hostAttempts : Nat
+  hostTotal : Nat
+deriving DecidableEq, Repr
+
+/-- `queryMetrics.attempt(1, latency, host, true)` -/
+def QM.attempt (q : QM) (h lat : Nat) : QM × ObsM :=
+  let m' := bumpHost q.m h lat
+  (⟨q.totalAttempts + 1, m'⟩, ⟨q.totalAttempts, hostAtt m' h, hostTot m' h⟩)
+
+/-- `queryMetrics.latency()`: total latency over all hosts / attempts over all hosts (integer division), 0 before
+    the first attempt -/
+def QM.latency (q : QM) : Nat :=
+  let a := (q.m.map (·.attempts)).sum
+  let l := (q.m.map (·.total)).sum
+  if a > 0 then l / a else 0
+
+/-- the statement's metrics after the attempts `hist` (host, latency of each, in order), with the observer records -/
+def QM.run : QM → List (Nat × Nat) → QM × List ObsM
+  | q, [] => (q, [])
+  | q, (h, lat) :: rest =>
+      let (q1, o) := q.attempt h lat
+      let (q2, os) := q1.run rest
+      (q2, o :: os)
+
+namespace Spec
+/-- the documented meaning, from the history alone: the i-th attempt is number i; the host's `Metrics.Attempts` is
+    the number of attempts made on that host so far, `Metrics.TotalLatency` the sum of their latencies;
+    `Latency()` is the average latency of all attempts; `Attempts()` their number -/
+def obsAt (hist : List (Nat × Nat)) (i : Nat) : ObsM :=
+  let upto := hist.take (i + 1)
+  let h := (hist.getD i (0, 0)).1
+  ⟨i, (upto.filter (·.1 == h)).length, ((upto.filter (·.1 == h)).map (·.2)).sum⟩
+
+def avgLatency (hist : List (Nat × Nat)) : Nat :=
+  if hist.length > 0 then (hist.map (·.2)).sum / hist.length else 0
+end Spec
+
 namespace Spec
 /-- The DOCUMENTED decisions of DowngradingConsistencyRetryPolicy (the doc comment above the type in policies.go;
     `none` = the text does not say):
